@@ -1,21 +1,93 @@
-"""C04 - deductive part: static frame/shape contracts of the mutation moves (contracts/moves_static.py) + the wire-view effect of
-the three edits they use (C12 layer 1 + 2: insert_at = splice, remove_op = unsplice).  EmitInv over move histories is [B-only]."""
+"""C04 - deductive part.
+
+Layer 1/2 (C12): the three DAG edits the moves use, on a symbolic graph fragment (contracts/dag.py: insert_at / remove_op / replace_op)
+    and their meaning for the wire view (lemmas/wires.py: splice / unsplice keep every wire a single path).
+Layer 3 [P] (contracts/moves_sem.py): SEMANTIC contracts of the seven mutation moves and the two position helpers of
+    graphiq/solvers/evolutionary_solver.py, proved by symbolic execution of the REAL bodies on an abstract circuit (effect trace of
+    the circuit edits; edge_dict lists of symbolic length; comprehension filters by lemma FILTER with the class tests as pure terms;
+    the helpers' nested loops by havoc + invariant): the ONLY effects are insert_at / replace_op / remove_op calls; every two-qubit op a
+    move builds is emitter controlled with its registers read from the chosen edges (CNOT e-e on two emitter edges, measure-and-reset
+    e->p with a photon edge whose tail is not an Input); a photon one-qubit gate goes on a photon edge whose tail is a CNOT with
+    reg_type p and the edge's register; remove_op never takes a Fixed / Input / Output node; replacements keep register and type (the
+    photonic one carries Fixed); inserted edge pairs are not reported incompatible.
+Layer 4 [P] (lemmas/emit_inv.py): the inductive step of EmitInv over the wire view - given EmitInv and an edit with exactly the
+    properties layer 3 guarantees, EmitInv holds afterwards (splice after the emission, unsplice of a non-Fixed node, replacement of a
+    wrapper on its register; no photon-photon op; Fixed emissions / measurements stay).  Each step has a negative control.
+Static text checks (contracts/moves_static.py, C04.S.*) are kept as an independent second opinion; see `notes` for which are superseded.
+[B-only] the base case (initialization establishes EmitInv), TimeReversedSolver / AlternateTargetSolver outputs, the index-consistency
+    invariant that links node_dict / edge_dict / op registers to the graph, find_incompatible_edges = reachability (T-cycle)."""
 from __future__ import annotations
 
 from pyvc.driver import run_tasks
-from contracts import dag as D, moves_static as MS
-from lemmas import wires
+from contracts import dag as D, moves_static as MS, moves_sem as SEM
+from contracts.metrics import canary_summary
+from lemmas import wires, emit_inv
 
 
 def deductive(tier="quick", seed=0):
+    try:
+        import graphiq.solvers.evolutionary_solver  # noqa: F401  (native replays: imported once in the parent; workers are forked)
+    except Exception:  # noqa: BLE001
+        pass
     tasks = [t for t in D.tasks(tier) if t.label.startswith(("insert_at", "remove_op", "replace_op"))]
-    d = run_tasks(tasks)
+    d = run_tasks(tasks + SEM.tasks())
     d.obligations.extend(wires.obligations())
+    d.obligations.extend(emit_inv.obligations())
     d.obligations.extend(MS.c04_obligations())
+    can = run_tasks(SEM.canary_tasks())
+    d.errors.extend(can.errors)
+    d.canaries = canary_summary(can) + [{k: c[k] for k in ("name", "function", "refuted", "replayed")} for c in emit_inv.canaries()]
+    d.inlined = sorted(SEM.INLINE)
     d.trusted_base += [
-        "[T-cycle] inserting on a pair of edges not reported incompatible creates no cycle",
-        "[B-only] EmitInv (photon's first op is its emission CNOT; afterwards only one-qubit gates / measurement-controlled targets) is "
-        "preserved by every move and established by initialization; TimeReversedSolver / AlternateTargetSolver outputs",
+        "[T-cycle] inserting on a pair of edges not reported incompatible creates no cycle (DESIGN 4.3); the moves are PROVED to insert "
+        "only on pairs (e0, e1) with e1 not in circuit.find_incompatible_edges(e0); that this set is the reachability closure is [B-only]",
+        "[A] abstract circuit reads (contracts/moves_sem.py docstring): get_node_by_labels(L) / get_node_exclude_labels(L) = the nodes of "
+        "the graph that are in node_dict[l] for every / for no l in L (their code is set algebra over node_dict); edge_dict[e], "
+        "edge_dict[p] exist, are non-empty and list edges whose end points are nodes; circuit.dag.edges[e]['reg'], "
+        "type(circuit.dag.nodes[n]['op']), .register are uninterpreted functions of the edge / node",
+        "[A] OneQubitGateWrapper.__init__ on an abstract non-empty operation list = the real OneQubitOperationBase/OperationBase "
+        "constructor chain (interpreted) + stored list; _wrap_noise / _identify_noise return an abstract noise object; CNOT and "
+        "MeasurementCNOTandReset are built by their real constructors",
+        "[B-only] index consistency of CircuitDAG (node_dict[l] lists exactly the nodes whose op carries label / class name / register "
+        "types l; edge_dict[t] lists exactly the edges with reg_type t; an op's registers are the wires its node sits on): it turns "
+        "the label / class premises of lemmas/emit_inv.py into the `kind` of a node on its wire (bounded C12 / C04 monitors)",
+        "[B-only] EmitInv base case: EvolutionarySolver.initialization establishes EmitInv; outputs of TimeReversedSolver / "
+        "AlternateTargetSolver satisfy it; histories = induction over the list of moves with layer 3 + 4 as the step",
+        "[B-only] acyclicity after insert_at = [T-cycle] + find_incompatible_edges returns a superset of the reachability-incompatible "
+        "edges (nx.ancestors / nx.descendants), checked by the bounded part",
         "[static] obligations named C04.S.* are decided on the AST text of the move (they fail on any edit of the stated shape)",
     ]
+    d.notes += [
+        "superseded by semantic obligations (kept as an independent text check): C04.S.<move>.mutates-only-through-... -> "
+        "<move>:frame.*; C04.S.<move>.two-qubit-ops-are-emitter-controlled, C04.S.add_emitter_cnot.builds-CNOT(e,e), "
+        "C04.S.add_measurement_cnot_and_reset.builds-mcr(e->p) -> post.register-types-*, post.two-qubit-op-is-controlled-by-an-emitter, "
+        "post.*-register-is-read-from-the-*-edge; C04.S.remove_op.never-draws-Fixed-Input-Output -> remove_op:post.removed-node-is-not-*; "
+        "C04.S.add_photon_one_qubit_op.only-after-the-emission-CNOT -> post.edge-is-right-after-the-emission(tail-is-a-CNOT); "
+        "C04.S._select_possible_*.excludes-incompatible-edges -> invloop(...).preserve.every-pair.second-edge-not-in-find_incompatible_edges(first)",
+        "remove_op(circuit, node): a caller-chosen Input / Output node is not refused by the real code (only Fixed nodes are); no caller "
+        "in graphiq passes a node, the clause is stated for operation nodes",
+    ]
+    d.not_applicable_clauses += [
+        "every circuit produced by the deterministic / alternate-target solver satisfies EmitInv (whole-solver outputs: bounded only)",
+        "the circuit stays a valid DAG after every move (acyclicity: T-cycle + bounded find_incompatible_edges)",
+    ]
     return d
+
+
+def replay_obligation(data):
+    """./check C04 --replay FILE : re-run the one task the obligation belongs to on the current tree (+ its native search)"""
+    name = data["obligation"]
+    label = name.split("|")[0].split(":")[0]
+    T = [t for t in SEM.tasks() if t.label == label]
+    if T:
+        d = run_tasks(T, procs=1)
+    else:
+        d = deductive()
+    bad = [o for o in d.obligations if o.name == name and o.status == "refuted"]
+    if not bad:
+        print("replay: obligation is discharged on the current tree")
+        return 0
+    o = bad[0]
+    print(f"replay: {o.function}\n  obligation {name}: REFUTED on the current tree\n  clause: {o.clause}\n  native run: {o.witness}")
+    print(f"VIOLATION property=C04 obligation={name}" + ("" if o.replayed else " no-failing-input-found"))
+    return 1
